@@ -26,7 +26,8 @@ func effectFree(name string) bool {
 		"(*github.com/scionproto/scion/pkg/metrics", "(*github.com/scionproto/scion/pkg/log",
 		"(*github.com/scionproto/scion/router.Metrics", "(github.com/scionproto/scion/router.trafficMetrics",
 		"github.com/scionproto/scion/pkg/private/util.", "time.Sleep", "(*time.Timer).", "(*time.Ticker).",
-		"(context.Context).", "context.",
+		"(*github.com/gopacket/gopacket/layers.BFD).Length",
+		"(context.Context).", "context.", "time.NewTimer", "time.NewTicker", "time.After", "time.AfterFunc",
 		"net/netip.", "(net/netip.Addr).", "(net/netip.AddrPort).", "(net/netip.Prefix).",
 		"(net.IP).", "net.ParseIP", "(*net.UDPAddr).String", "(*net.IPNet).",
 	} {
@@ -100,6 +101,18 @@ func (x *Exec) doCall(st *State, fr *Frame, ci *ssa.Call) bool {
 		fv := fr.get(x, cc.Value)
 		if fv.clo != nil {
 			return x.inlineCall(st, fr, ci, fv.clo.fn, args, fv.clo.binds)
+		}
+		// contract attached to a named function type: "iface <TypeName>.call"
+		if nt, ok := types.Unalias(cc.Value.Type()).(*types.Named); ok && nt.Obj().Pkg() != nil {
+			if sig, ok := nt.Underlying().(*types.Signature); ok {
+				if pc := x.contracts[nt.Obj().Pkg().Path()]; pc != nil {
+					if c := pc.ifaces[nt.Obj().Name()+".call"]; c != nil {
+						x.safe(st, fr, "nil", ci.Pos(), Neq(fv.l[0], nilRef))
+						x.modularCall(st, fr, ci, c, sig, append([]SV{fv}, args...), nil, "functype:"+nt.Obj().Name())
+						return true
+					}
+				}
+			}
 		}
 		x.opaqueCall(st, fr, ci, "dynamic call")
 		return true
@@ -197,6 +210,10 @@ func (x *Exec) pureOpaque(st *State, fr *Frame, ci *ssa.Call, name string) {
 		if len(r.l) == 2 {
 			st.assume(Neq(r.l[0], mkBV(0, 32)))
 		}
+	}
+	if (name == "time.NewTimer" || name == "time.NewTicker") && len(r.l) == 1 {
+		// constructors return a fresh non-nil object
+		r.l[0] = x.freshRef(st)
 	}
 	fr.vals[ci] = x.splitTuple(ci.Type(), r)
 }
